@@ -37,7 +37,7 @@ REAL = ['smartquery.* (two independently imported copies)', 'smartquery.ply', 's
 STUB = ['host callbacks', 'entropy source (re-seeded identically before each call in both universes)']
 REACH_PROBES = ('kill_inside_yacc_parse', 'kill_inside_lexer', 'kill_inside_rules', 'kill_inside_eval', 'paren_count_nonzero_before_next_call',
                 'gen_abandoned_midway', 'budget_abort', 'reentry', 'fault_then_compared', 'foreign_names_switch',
-                'fresh_construction_crosscheck', 'bad_source_error')
+                'fresh_construction_crosscheck', 'bad_source_error', 'deferred_listing_read', 'host_calls_stored_lambda')
 THOROUGH_PROBES = ('kill_sweep_case',)
 
 
@@ -121,6 +121,10 @@ def generate(seed, tier):
     for i in range(rc.randint(8, 40)):
         si = ro.randrange(len(world['spaces']))
         m = models[si]
+        if ops and rf.random() < 0.06:
+            # outside any call of the parser the host calls a lambda an earlier evaluation left in this names mapping
+            ops.append({'op': 'hostcall', 'space': si, 'which': rf.randrange(4), 'arg': rf.choice([0, 1, 2, 'a']), 'src': ''})
+            continue
         env = {k: type_of(v) for k, v in m.host.items()}
         arity = {k: len(v.params) for k, v in m.host.items() if getattr(v, '_sim_kind', '') == 'lambda'}
         if pool and ro.random() < 0.3:
@@ -142,7 +146,7 @@ def generate(seed, tier):
             bk, text = badsrc.make_bad(rf, src)
             op['src'] = text
             op['bad'] = bk
-        if ops and ro.random() < 0.12:
+        if ops and ops[-1]['op'] != 'hostcall' and ro.random() < 0.12:
             # the very text of the previous call (valid or not) goes through another entry point right away
             prev = ops[-1]
             op['src'] = prev['src']
@@ -165,6 +169,8 @@ def generate(seed, tier):
         if kind == 'list_names' and faulty and rf.random() < 0.45:
             op['consume'] = rf.randint(0, 4)
             op['keep_suspended'] = rf.random() < 0.5
+        elif kind == 'list_names' and faulty and rf.random() < 0.3:
+            op['defer'] = True       # the listing is requested now and read only after the next call(s) on the same parser
         if faulty and rf.random() < 0.15:
             op['kill_at'] = int(2 ** rf.uniform(0, 11))
         op['entropy'] = ro.randrange(2 ** 32)
@@ -173,7 +179,7 @@ def generate(seed, tier):
     case = {'world': world, 'ops': ops}
     if tier == 'thorough' and rc.random() < 0.04:
         # kill-point enumeration on a short history
-        ops = [dict(o) for o in ops[:rc.randint(3, 7)]]
+        ops = [dict(o) for o in ops[:rc.randint(3, 7)] if o['op'] != 'hostcall']
         for o in ops:
             o.pop('kill_at', None)
         case = {'world': world, 'ops': ops, 'kill_sweep': rc.randrange(max(1, len(ops) - 1))}
@@ -317,9 +323,32 @@ def _kill_sweep(case, ctx):
     ctx.nontrivial = True
 
 
+def _read_deferred(ctx, pending):
+    """Listings that were requested earlier (generator objects not started yet) are read now, after other calls went
+    through the same parser: what they yield depends on the text they were requested for, nothing else."""
+    while pending:
+        step0, src, ga, gb = pending.pop(0)
+
+        def drain(g):
+            try:
+                return ['value', list(g)]
+            except Exception as e:
+                return ['exc', type(e).__module__ + '.' + type(e).__qualname__, canon.norm_msg(str(e))]
+        a = drain(ga)
+        from .. import modstate
+        modstate.reset(boot.SNAP_B)
+        with boot.pristine_context():
+            b = drain(gb)
+        ctx.probe('deferred_listing_read')
+        if a != b:
+            ctx.report('history_dependent_result', 'list_names(%r) was requested at step %d and read after later calls on the same parser: it yielded %s, '
+                       'on a pristine parser %s' % (src[:160], step0, str(a)[:200], str(b)[:200]), {'kind': 'history_dependent_result', 'call': 'list_names-deferred'})
+
+
 def _execute(case, ctx, quiet=False):
     A = Universe(case['world'], twin=False)
     B = Universe(case['world'], twin=True)
+    pending = []
     fault_before = False
     last_space = None
     for step, op in enumerate(case['ops']):
@@ -343,11 +372,51 @@ def _execute(case, ctx, quiet=False):
                 ctx.event(step, 'kill_missed')
             except SimKill:
                 ctx.fault('trace_kill')
+                if boot.clear_active_marks():
+                    ctx.stats['kill_left_evaluation_marked_active'] += 1      # killed inside the finally that clears the mark
                 fn = tk.where[0] if tk.where else ''
                 ctx.probe('kill_inside_yacc_parse' if fn == 'yacc.py' else 'kill_inside_lexer' if fn in ('lex.py', 'lexer.py')
                           else 'kill_inside_rules' if fn == 'rules.py' else 'kill_inside_eval')
                 fault_before = True
                 ctx.event(step, 'killed', tk.where)
+            continue
+        if op['op'] == 'hostcall':
+            fa = sorted(k for k, v in A.spaces[si].items() if callable(v) and getattr(v, '_sim_kind', '') != 'host:t')
+            fb = sorted(k for k, v in B.spaces[si].items() if callable(v) and getattr(v, '_sim_kind', '') != 'host:t')
+            if fa and fa == fb and not A.tainted:
+                nm = fa[op['which'] % len(fa)]
+
+                def hc(f):
+                    try:
+                        return ['value', canon.canon(f(op['arg']), monitors.M.fn_names)]
+                    except RecursionError:
+                        return ['exc', 'RecursionError']
+                    except Exception as e:
+                        return ['exc', type(e).__module__ + '.' + type(e).__qualname__, canon.norm_msg(str(e))]
+                a = hc(A.spaces[si][nm])
+                from .. import modstate
+                modstate.reset(boot.SNAP_B)
+                with boot.pristine_context():
+                    b = hc(B.spaces[si][nm])
+                ctx.fault('call_outside_eval')
+                ctx.probe('host_calls_stored_lambda')
+                na = canon.canon(A.spaces, monitors.M.fn_names)
+                nb = canon.canon(B.spaces, monitors.M.fn_names)
+                if 'RecursionError' not in (a[1], b[1]) and (a != b or na != nb):
+                    ctx.report('history_dependent_result', 'step %d: the host called the stored lambda %s(%r) outside any call: long-lived parser\'s world -> %s ; '
+                               'pristine world -> %s%s' % (step, nm, op['arg'], str(a)[:200], str(b)[:200], '' if na == nb else ' ; names mappings differ afterwards'),
+                               {'kind': 'history_dependent_result', 'call': 'hostcall'})
+            continue
+        if pending and pending[0][0] < step - 1 and not op.get('defer'):       # at least one other call went through in between
+            _read_deferred(ctx, pending)
+        if op.get('defer') and op['op'] == 'list_names' and not op.get('kill_at'):
+            try:
+                ga = A.parser.list_names(op['src'])
+                gb = boot.twin_parser().list_names(op['src'])
+                pending.append((step, op['src'], ga, gb))
+                ctx.fault('listing_read_later')
+            except Exception:
+                pass
             continue
         a = _call(A, op, A.spaces[si] if op['op'] == 'eval' else None)
         with boot.pristine_context():
@@ -424,6 +493,8 @@ def _execute(case, ctx, quiet=False):
                 if c != b:
                     ctx.report('pristine_copy_not_equivalent', 'step %d: deep copy of a never-used parser and a fresh construction disagree: %s vs %s' % (
                         step, str(b)[:200], str(c)[:200]), {'kind': 'pristine_copy_not_equivalent'})
+    if pending:
+        _read_deferred(ctx, pending)
 
 
 def simplify(case):
